@@ -67,7 +67,8 @@ class Model:
     # ---- C09 ------------------------------------------------------------------------------
     def predict(self, s, a):
         """Deterministic part of the transition: dict with optional keys
-        'state': {dotted.field.path: expected array}, 'reward', 'last' (bool), 'discount'."""
+        'state': {dotted.field.path: expected array}, 'reward', 'last' (bool, or a callable of the
+        successor state when termination depends on a stochastic part), 'discount'."""
         raise NotImplementedError
 
     def stochastic_ok(self, s, a, s2):
